@@ -1167,8 +1167,8 @@ class VM:
             if key_str == "BYTES_PER_ELEMENT":
                 return obj._element_size
             if key_str == "buffer":
-                # Return the underlying buffer if it exists
-                return getattr(obj, "_buffer", UNDEFINED)
+                # Every typed array has an ArrayBuffer (created on demand)
+                return obj._ensure_buffer()
             # Built-in typed array methods
             typed_array_methods = ["toString", "join", "subarray", "set"]
             if key_str in typed_array_methods:
